@@ -84,7 +84,42 @@ TEXTS = [
     ("update-join", "update tgt x join t1 y on x.k = y.k set x.a = y.a"),
     ("merge", "merge into tgt x using t1 y on x.k = y.k when matched then update set a = y.a when not matched then insert (k, a) values (y.k, y.a)"),
     ("merge-subq", "merge into tgt x using (select k, a from t1) y on x.k = y.k when matched then update set a = y.a"),
+    ("merge-two-inserts", "merge into tgt x using t1 y on x.k = y.k when not matched and y.f = 1 then insert (a, b) values (y.p, y.q) "
+                          "when not matched then insert (b, a) values (y.p, y.q)"),
+    ("update-from-subq", "update tgt set a = q.b from (select b, k from t1) q where tgt.k = q.k"),
+    ("update-from-subq-const", "update tgt set a = 1 from (select k from t1) q where tgt.k = q.k"),
+    ("update-join-alias", "update tgt x join t1 y on x.k = y.k join t2 z on z.k = y.k set x.a = y.a"),
+    ("update-comma", "update tgt x, t1 y set x.a = y.a where x.k = y.k"),
+    ("cmp-two-subq", "insert into tgt select a from t1 where (select max(b) from t2) > (select min(b) from t3)"),
+    ("case-two-subq", "insert into tgt select case when (select max(b) from t2) > (select min(b) from t3) then a end as f from t1"),
+    ("copy-from", "copy tgt from '/tmp/f.csv'"),
+    ("copy-from-local", "copy tgt from local '/tmp/f.csv'"),
+    ("insert-overwrite", "insert overwrite table tgt select a from t1"),
+    ("from-alias-cols", "insert into tgt select s.k from t1 as s (k, v)"),
+    ("merge-self-ref", "merge into tgt x using t1 y on x.k = y.k when matched then update set x.p = x.q"),
 ]
+
+# what the property's reading of core SQL says the TABLES are (source, target), for the texts C01 also runs under every dialect
+EXPECTED_TABLES = {
+    "join-inner": (["t1", "t2"], ["tgt"]), "join-left-outer": (["t1", "t2"], ["tgt"]), "join-right": (["t1", "t2"], ["tgt"]),
+    "join-full-outer": (["t1", "t2"], ["tgt"]), "join-cross": (["t1", "t2"], ["tgt"]), "join-natural": (["t1", "t2"], ["tgt"]),
+    "join-natural-left": (["t1", "t2"], ["tgt"]), "join-paren": (["t1", "t2"], ["tgt"]), "join-paren-nested": (["t1", "t2", "t3"], ["tgt"]),
+    "join-three": (["t1", "t2", "t3"], ["tgt"]), "join-using": (["t1", "t2"], ["tgt"]), "join-comma": (["t1", "t2"], ["tgt"]),
+    "join-derived": (["t1", "t2"], ["tgt"]), "join-self": (["t1"], ["tgt"]),
+    "select-exists": (["t1", "t2"], ["tgt"]), "select-in-subq": (["t1", "t2"], ["tgt"]), "select-scalar-cmp": (["t1", "t2"], ["tgt"]),
+    "union": (["t1", "t2"], ["tgt"]), "union-all-3": (["t1", "t2", "t3"], ["tgt"]), "intersect": (["t1", "t2"], ["tgt"]),
+    "except": (["t1", "t2"], ["tgt"]), "union-paren": (["t1", "t2"], ["tgt"]),
+    "cte": (["t1", "t2"], ["tgt"]), "cte-two": (["t1"], ["tgt"]), "cte-before-insert": (["t1"], ["tgt"]), "cte-union": (["t1", "t2"], ["tgt"]),
+    "ctas": (["t1"], ["tgt"]), "ctas-paren": (["t1"], ["tgt"]), "view": (["t1"], ["tgt"]), "view-cols": (["t1"], ["tgt"]),
+    "insert-cols": (["t1"], ["tgt"]), "insert-values": ([], ["tgt"]), "insert-paren-query": (["t1"], ["tgt"]),
+    "create-table": ([], ["tgt"]), "create-like": (["t1"], ["tgt"]),
+    "update-plain": ([], ["tgt"]), "update-alias": ([], ["tgt"]), "update-as-alias": ([], ["tgt"]),
+    "update-from": (["t1"], ["tgt"]), "update-join": (["t1"], ["tgt"]), "update-join-alias": (["t1", "t2"], ["tgt"]),
+    "update-comma": (["t1"], ["tgt"]), "update-from-subq": (["t1"], ["tgt"]), "update-from-subq-const": (["t1"], ["tgt"]),
+    "merge": (["t1"], ["tgt"]), "merge-subq": (["t1"], ["tgt"]), "merge-two-inserts": (["t1"], ["tgt"]), "merge-self-ref": (["t1"], ["tgt"]),
+    "cmp-two-subq": (["t1", "t2", "t3"], ["tgt"]), "insert-overwrite": (["t1"], ["tgt"]), "from-alias-cols": (["t1"], ["tgt"]),
+    "copy-from": (["/tmp/f.csv"], ["tgt"]), "copy-from-local": (["/tmp/f.csv"], ["tgt"]),
+}
 
 
 def outcome_of(r, tables_only):
